@@ -51,6 +51,10 @@ CLAIMED = {
         text="Lean theorems for class chains of any depth: field-index bijection, instance slot count, field set = names assigned on self in the chain's initialisers, fixed compile-time index valid in every descendant, flattened lookup = most-derived-first walk (methods and init), lexical super lookup, fused invoke = get-then-call, field shadows method, bound-method receiver, and that the emitted Class/Inherit/Field/Method sequence builds exactly that class; API-level stream against laythe_core Class/Instance, generated class programs judged by an executable Lean class semantics, compile-log tie for the field numbering",
         note="Trusted: Lean kernel + standard axioms, hand-written class/VM-call model (tied by the three streams), harness; whole-program equivalence (C03_full) is sampled, not proved",
         technique="Lean 4 structural-induction proofs over class chains + API/program/compile-log correspondence streams"),
+    "C04": dict(
+        text="Lean theorems: unwinding to a handler whose recorded depth equals the true depth resumes at the catch offset with exactly the slots that existed at the try and the same frame count, for any deeper frames and temporaries; catch chain (first matching clause, continue unwinding, non-Error filter); only Error instances can be raised; native boundary; a locally consistent handler-height/depth annotation is an invariant of every control-flow path and the executable checkers for handler balance and handler depth are sound; witnesses for the repaired defects D1/D3 and the open D185; regenerated exit-rule/try-emission tables; verified checkers run on every emitted function, interpreter probe compared with the annotation, generated try/catch programs judged by a definitional Lean interpreter",
+        note="Trusted: Lean kernel (axioms propext, Quot.sound), translate_c04.py, hand-written handler machine and lowering skeleton (tied by the streams), probe and compile-log hooks; the repaired lowering being balanced for all statements is sampled, not proved; natives' own error propagation is not modelled (known finding D12 family)",
+        technique="Lean 4 proofs about the handler machine and verified flow checkers + generated tables + Spec-interpreter program stream"),
     "C05": dict(
         text="Lean theorems on the allocator model for every heap, mutator history and collection schedule: marking = reachability (with the model's own fuel), a collection (nursery or full) keeps every reachable object owned with its payload untouched, and along every valid history under any schedule everything the mutator can reach is still owned (C05_no_live_object_freed); random mutator/collector histories against the real Allocator judged by a reachability monitor and replayed through the model; programs and fixtures under many collection schedules must behave identically",
         note="Trusted: Lean kernel + standard axioms, hand-written allocator model (alloc stream), allocator hooks; the VM root set and the natives' push_root discipline are outside the model and covered only by the schedule stream; observational equivalence of two schedules is not proved (only its safety core)",
